@@ -91,6 +91,10 @@ type Input struct {
 	WatchFirst  bool     `json:"watch_first,omitempty"`
 	NoSync      bool     `json:"no_sync,omitempty"`
 	BindingName string   `json:"binding_name,omitempty"`
+	// Kind of the objects and of the monitor ("" = ConfigMap; alike.go also uses Service)
+	Kind string `json:"kind,omitempty"`
+	// look-alike cases (alike.go): the kinds of value changes the history makes (for the tags only)
+	Alike []string `json:"alike,omitempty"`
 }
 
 type Fired struct {
@@ -253,7 +257,7 @@ func Run(in Input) Obs {
 	mc.Metadata.MetricLabels = map[string]string{}
 	mc.Logger = log.NewNop()
 	mc.ApiVersion = "v1"
-	mc.Kind = objKind
+	mc.Kind = kindOf(in)
 	mc.JqFilter = in.Filter
 	mc.KeepFullObjectsInMemory = true // so that the cached Object can be observed
 	if in.TypesUnset {
@@ -586,6 +590,7 @@ func Render(in Input, obs *Obs, crash string) core.Case {
 	if nonObject && in.Filter != "" {
 		c.Tags = append(c.Tags, "result-not-a-single-object")
 	}
+	c.Tags = append(c.Tags, alikeTags(in)...)
 	if in.Family == familyMulti || in.Family == "multiple" {
 		c.Tags = append(c.Tags, multiTags(o.Answers)...)
 	}
@@ -639,6 +644,8 @@ type gen struct {
 	r *core.Rng
 	// multi (multi.go): the objects switch the sources of a multi-output filter's parts on and off
 	multi bool
+	// alike (alike.go): the objects' selected fields move between look-alike values
+	alike *alikeGen
 }
 
 func (g *gen) pick(xs ...interface{}) interface{} { return xs[g.r.Intn(len(xs))] }
@@ -676,6 +683,21 @@ func (g *gen) baseObject(id int) map[string]interface{} {
 		g.multiShape(o)
 	}
 	return o
+}
+
+// newObject / change: the objects of a history (alike.go substitutes its own)
+func (g *gen) newObject(id int) map[string]interface{} {
+	if g.alike != nil {
+		return g.alikeBase(id)
+	}
+	return g.baseObject(id)
+}
+
+func (g *gen) change(o map[string]interface{}) map[string]interface{} {
+	if g.alike != nil {
+		return g.alikeMutate(o)
+	}
+	return g.mutate(o)
 }
 
 func clone(o map[string]interface{}) map[string]interface{} {
@@ -793,7 +815,7 @@ func (g *gen) history(nIds, maxLen int, f filterDef, subset int, forms bool) Inp
 					if len(prev[id]) > 0 && g.r.Chance(50) {
 						no = prev[id][g.r.Intn(len(prev[id]))]
 					} else {
-						no = g.baseObject(id)
+						no = g.newObject(id)
 					}
 					cur[id] = no
 					prev[id] = append(prev[id], no)
@@ -806,11 +828,11 @@ func (g *gen) history(nIds, maxLen int, f filterDef, subset int, forms bool) Inp
 				gone = append(gone, Ev{Type: "Deleted", State: addState(id, o), Form: formTombstone, Batch: "relist"})
 				cur[id] = nil
 			case k < 75:
-				no := g.mutate(o)
+				no := g.change(o)
 				if g.r.Chance(30) {
-					no = g.mutate(no)
+					no = g.change(no)
 				} else if g.r.Chance(15) {
-					no = g.baseObject(id) // deleted and re-created under the same name
+					no = g.newObject(id) // deleted and re-created under the same name
 				}
 				cur[id] = no
 				prev[id] = append(prev[id], no)
@@ -847,7 +869,7 @@ func (g *gen) history(nIds, maxLen int, f filterDef, subset int, forms bool) Inp
 			if len(prev[id]) > 0 && g.r.Chance(50) {
 				no = prev[id][g.r.Intn(len(prev[id]))]
 			} else {
-				no = g.baseObject(id)
+				no = g.newObject(id)
 			}
 			cur[id] = no
 			prev[id] = append(prev[id], no)
@@ -860,7 +882,7 @@ func (g *gen) history(nIds, maxLen int, f filterDef, subset int, forms bool) Inp
 			}
 			in.History = append(in.History, Ev{Type: t, State: addState(id, o)})
 		case k < 75:
-			no := g.mutate(o)
+			no := g.change(o)
 			if g.r.Chance(15) && len(prev[id]) > 0 {
 				no = prev[id][g.r.Intn(len(prev[id]))] // flip back to an earlier state
 			}
@@ -877,7 +899,7 @@ func (g *gen) history(nIds, maxLen int, f filterDef, subset int, forms bool) Inp
 			d := o
 			form := delForm()
 			if form == "" && g.r.Chance(30) {
-				d = g.mutate(o)
+				d = g.change(o)
 			}
 			cur[id] = nil
 			in.History = append(in.History, Ev{Type: "Deleted", State: addState(id, d), Form: form})
@@ -1016,6 +1038,9 @@ func Gen(r *core.Rng, tier string) ([]core.In[Input], bool) {
 	for _, c := range MultiCorpus() {
 		ins = append(ins, core.In[Input]{Input: c, Stream: "corpus"})
 	}
+	for _, c := range AlikeCorpus() {
+		ins = append(ins, core.In[Input]{Input: c, Stream: "corpus"})
+	}
 	for _, c := range TriggerCorpus() {
 		ins = append(ins, core.In[Input]{Input: c, Stream: "trigger-F8"})
 	}
@@ -1026,12 +1051,15 @@ func Gen(r *core.Rng, tier string) ([]core.In[Input], bool) {
 	n, maxLen, nStart := 300, 8, 126
 	declRounds, declStartEvery := 1, 3
 	nMulti := 150
+	nAlike, nAlikeStart := 170, 30
 	switch tier {
 	case "thorough":
+		nAlike, nAlikeStart = 8000, 1200
 		n, maxLen, nStart = 10000, 12, 3600
 		declRounds, declStartEvery = 25, 4
 		nMulti = 6000
 	case "search":
+		nAlike, nAlikeStart = 1500, 300
 		n, maxLen, nStart = 2000, 8, 900
 		declRounds, declStartEvery = 6, 3
 		nMulti = 1200
@@ -1097,6 +1125,8 @@ func Gen(r *core.Rng, tier string) ([]core.In[Input], bool) {
 	// jqFilters with several outputs of mixed kinds (multi.go); last, so that the streams above
 	// are generated as before
 	ins = append(ins, g.multiCases(nMulti, maxLen)...)
+	// look-alike projections (alike.go); last again, so that the streams above are generated as before
+	ins = append(ins, g.alikeCases(nAlike, nAlikeStart, maxLen)...)
 	return ins, false
 }
 
